@@ -45,6 +45,8 @@ def check(v, tier, seed):
                      "record": bad if len(s) < 6000 else s[:6000], "file": obs}, tags={"kind": "meta"})
     elif tr["distinct"] < len(recs):
         raise vlib.Infra("Trace_Metadata consumed %d of %d" % (tr["distinct"], len(recs)))
+    v.cov["concurrent_decodes"] = sum(x.get("decodes", 0) for x in recs if x.get("e") == "Conc")
+    recs = [x for x in recs if x.get("e") == "Meta"]
     vias = {}
     for x in recs:
         key = x["via"] + ("/ok" if x["eok"] else "/refused")
